@@ -369,6 +369,33 @@ def run_split3(ctx, cases):
         if len(parts) != 3 or any(p.type != 'grad' or p.channel != g.channel for p in parts):
             ctx.fail('C18/split-shape', c, {'result': repr(parts)[:300]})
             continue
+        if c.get('offraster') and min(F(g.rise_time), F(g.flat_time), F(g.fall_time)) > 0:
+            # C18_split_discrepancy: the parts miss the ROUNDED trapezoid (= the argument after the call) by the
+            # displacement of the ramp-down by d = total - rounded total
+            rt = gl.corners(g, raster)
+            pl = [gl.corners(p, raster) for p in parts]
+            tot = F(before.delay) + F(before.rise_time) + F(before.flat_time) + F(before.fall_time)
+            j1r = F(g.delay) + F(g.rise_time)
+            j2r = j1r + F(g.flat_time)
+            dsh = tot - (j2r + F(g.fall_time))
+            ramp = [(Fraction(0), F(g.amplitude)), (F(g.fall_time), Fraction(0))]
+            badd = None
+            for x in gl.sample_times(pl + [rt], raster):
+                if min(abs(x - j1r), abs(x - j2r)) <= Fraction(1, 10 ** 12):
+                    continue
+                # stay away from the discontinuous ends of the displaced ramp (binary64 noise in the corner times)
+                if min(abs(x - j2r - dsh), abs(x - j2r - dsh - F(g.fall_time))) <= Fraction(1, 10 ** 12):
+                    continue
+                lhs = sum(gl.pw_eval(p_, x) for p_ in pl) - gl.pw_eval(rt, x)
+                rhs = gl.pw_eval(ramp, x - j2r - dsh) - gl.pw_eval(ramp, x - j2r)
+                if not gl.close(lhs, rhs, sc * 10):
+                    badd = {'t': float(x), 'parts_minus_rounded_trapezoid': float(lhs), 'expected': float(rhs),
+                            'total_minus_rounded_total': float(dsh)}
+                    break
+            if badd:
+                ctx.fail('C18/split-offraster-discrepancy', c, badd)
+                continue
+            ctx.count('split3.offraster.shift_%s' % ('zero' if abs(dsh) < Fraction(1, 10 ** 12) else 'nonzero'))
         if not c.get('offraster'):
             whole = gl.corners(before, raster)
             pl = [gl.corners(p, raster) for p in parts]
